@@ -35,6 +35,8 @@ pub struct Profile {
     pub cross_type: bool,
     pub binary_values: bool,
     pub big_values: bool,
+    /// every fifth big value is 1 - 2.3 MiB (sizes around the 1 MiB chunk constant of the storage layer)
+    pub huge_values: bool,
 }
 
 impl Profile {
@@ -46,7 +48,7 @@ impl Profile {
             w_maintain: 0, reads_per_step: 1, exotic_values: false, bad_inputs: true, max_elems: 10,
             variants: vec![Kind::Memory],
             searches_per_step: 0, focus: Focus::Mixed, search_values: false, cross_type: true,
-            binary_values: false, big_values: false,
+            binary_values: false, big_values: false, huge_values: false,
         };
         let search = |p: &mut Profile, f: Focus| {
             p.searches_per_step = 3; p.focus = f; p.search_values = true; p.reads_per_step = 0;
@@ -67,6 +69,11 @@ impl Profile {
             // the same in lock-step with values of 40-120 KiB: the files pass 1 MiB and are reopened, copied, backed up
             "variants_big" => { p.variants = Kind::all().to_vec(); p.w_maintain = 8; p.big_values = true; p.max_elems = 60; p.w_insert_nodes = 30;
                                 p.w_insert_values = 14; p.w_remove = 3; p.w_remove_values = 2; p.w_tx = 2; p.bad_inputs = false; p.reads_per_step = 1; }
+            // values beyond 1 MiB (a single value larger than the storage layer's chunk constant), removed, replaced, moved
+            // by defragmentation, reopened
+            "variants_huge" => { p.variants = vec![Kind::Memory, Kind::File, Kind::Mapped]; p.w_maintain = 14; p.big_values = true; p.huge_values = true;
+                                 p.max_elems = 40; p.w_insert_nodes = 24; p.w_insert_values = 16; p.w_remove = 4; p.w_remove_values = 8; p.w_tx = 2;
+                                 p.bad_inputs = false; p.reads_per_step = 1; }
             "values" => { p.exotic_values = true; p.w_insert_values = 20; p.w_update_nodes = 8; p.w_remove_values = 8;
                           p.variants = vec![Kind::Memory, Kind::File, Kind::Mapped]; p.w_maintain = 4; p.bad_inputs = false; }
             "search_trav" => search(&mut p, Focus::Traversal),
@@ -179,7 +186,8 @@ pub struct Gen<'a> {
 impl Gen<'_> {
     fn value(&mut self) -> DbValue {
         if self.p.big_values && self.rng.chance(2, 3) {
-            let n = 40_000 + self.rng.below(80_000) as usize;
+            let n = if self.p.huge_values && self.rng.chance(1, 5) { *self.rng.pick(&[1_048_577usize, 1_200_000, 2_097_153, 2_300_000]) }
+                    else { 40_000 + self.rng.below(80_000) as usize };
             let mut x = self.rng.next();
             return DbValue::Bytes((0..n).map(|_| { x = x.wrapping_mul(6364136223846793005).wrapping_add(1442695040888963407); (x >> 56) as u8 }).collect());
         }
